@@ -131,6 +131,19 @@ def make_pure(spec):
                 t += d * d
             return t * 1e12 * s - 1e15 + off
 
+    elif kind == "nanregion":
+        # sphere that is undefined (NaN) on a slab of the box: "objective returns NaN for infeasible points"
+        cut = float(spec["nan_below"])
+
+        def f(xs):
+            if xs[0] < cut:
+                return float("nan")
+            t = 0.0
+            for xi, ci in zip(xs, c):
+                d = xi - ci
+                t += d * d
+            return t * s + off
+
     elif kind == "abszero":
         # |x - c|_1 with integer centre: exact 0.0 reachable on faces / by local search
         def f(xs):
@@ -181,6 +194,9 @@ def gen_objective(rng, dim, box, maximize, kinds=None):
     rngs = [hi - lo for lo, hi in box]
     mr = min(rngs)
     spec["center"] = inside()
+    if kind == "nanregion":
+        lo0, hi0 = box[0]
+        spec["nan_below"] = lo0 + (hi0 - lo0) * rng.choice([0.1, 0.2, 0.3])
     spec["scale"] = 1.0
     spec["offset"] = rng.choice([0.0, 0.0, 0.0, 1.5, -3.0, 100.0])
     if kind == "rastrigin":
